@@ -546,7 +546,7 @@ fn run(ctx: &mut Ctx) {
                                 _ => ctx.rep.machinery(format!("nondeterministic verdict: {sig}")),
                             }
                         }
-                        if job % 701 == 5 {
+                        if job % 701 == 5 || ctx.rep.samples.is_empty() {
                             ctx.rep.sample(json!({"part":"small","tree": c08_fs(&forest).describe(0), "root": root, "form": form, "primary": if execdir {"-execdir"} else {"-exec"}}));
                         }
                     }
